@@ -27,10 +27,13 @@ var (
 	done = protocol.NewState(4, "Done")
 )
 
+// probe1, when set, is S1's TimeoutFunc (consulted every time a timer is armed for S1)
+var probe1 func() time.Duration
+
 func stateMap(t1, t2 time.Duration, probe func() time.Duration) protocol.StateMap {
 	return protocol.StateMap{
 		s0:   {Agency: protocol.AgencyServer, Timeout: t1, Transitions: []protocol.StateTransition{{MsgType: 1, NewState: s1}}},
-		s1:   {Agency: protocol.AgencyClient, Timeout: t1, Transitions: []protocol.StateTransition{{MsgType: 2, NewState: s2}}},
+		s1:   {Agency: protocol.AgencyClient, Timeout: t1, TimeoutFunc: probe1, Transitions: []protocol.StateTransition{{MsgType: 2, NewState: s2}, {MsgType: 4, NewState: s1}}},
 		s2:   {Agency: protocol.AgencyServer, Timeout: t2, TimeoutFunc: probe, Transitions: []protocol.StateTransition{{MsgType: 3, NewState: done}}},
 		done: {Agency: protocol.AgencyNone},
 	}
@@ -192,7 +195,57 @@ func Timeouts() {
 		errsAtS2 = protocol.VerifErrorCount(p)
 		return 0 // S2 has no timeout
 	}
+	probe1 = nil
 	switch scenario {
+	case 4: // S0 -> S1 (timed), then three messages that stay in S1, each well within the limit:
+		// every re-entry stops the running timer and arms a fresh one (the limit counts from
+		// the holder's last move), so no timeout is reported while the conversation progresses
+		armed := 0
+		limit := 3 * time.Second
+		probe1 = func() time.Duration { armed++; return limit }
+		last, maxGap := time.Now(), time.Duration(0)
+		p = protocol.VerifLoopProtocol(protocol.ProtocolConfig{Name: "t", Role: role(false), StateMap: stateMap(long, 0, nil), InitialState: s0})
+		run, request, results := protocol.VerifStateLoopIO(p)
+		sent := 0
+		env := func() bool {
+			if sent == 4 || protocol.VerifStopped(p) {
+				return false
+			}
+			if !sym.Symbolic() && sent > 0 {
+				time.Sleep(800 * time.Millisecond) // natively: progress every ~0.9 s, limit 3 s
+			}
+			if g := time.Since(last); g > maxGap && sent > 0 {
+				maxGap = g
+			}
+			last = time.Now()
+			t := uint8(4)
+			if sent == 0 {
+				t = 1
+			}
+			sent++
+			request(msg(t))
+			return true
+		}
+		sym.RunGoroutines(env, run)
+		sym.Reach("ran")
+		answered := 0
+		for len(results) > 0 {
+			if (<-results) == nil {
+				answered++
+			}
+		}
+		if answered == 4 {
+			sym.Reach("self-loop")
+			sym.Assert(armed == 4, "every entry into a timed state, re-entry included, arms a fresh timer for it")
+		}
+		if g := time.Since(last); g > maxGap {
+			maxGap = g
+		}
+		if !sym.Symbolic() && maxGap < limit*6/10 {
+			// (only judged when this run really kept every gap well inside the limit)
+			sym.Assert(protocol.VerifErrorCount(p) == 0 && answered == 4, "no timeout is reported while the conversation progresses within the limit")
+		}
+		probe1 = nil
 	case 0: // the initial state has a timeout configured, nothing happens: no timer, no error
 		p = protocol.VerifLoopProtocol(protocol.ProtocolConfig{Name: "t", Role: role(false), StateMap: stateMap(short, 0, nil), InitialState: s0})
 		run, _ := protocol.VerifRunStateLoop(p, nil)
